@@ -143,6 +143,78 @@ func checkHistory(res *core.Result, d deliverer, h []uint32, keyPrefix string, c
 	return true
 }
 
+// damager: a deliverer that can also deliver a damaged copy (one bit of the MAC/signature flipped) of frame x.
+type damager interface {
+	deliverDamaged(x uint32, r *rand.Rand) (accepted bool)
+}
+
+// checkHistoryDamaged is checkHistory with damaged copies of arbitrary frames (also far ahead of the window)
+// delivered in between: they must be refused and must not change the verdict on any genuine frame.
+func checkHistoryDamaged(res *core.Result, d deliverer, h []uint32, universe int, r *rand.Rand) bool {
+	dm, ok := d.(damager)
+	if !ok {
+		return true
+	}
+	d.reset()
+	ref := newRef(d.strict())
+	for i, x := range h {
+		if r.IntN(3) == 0 {
+			y := x
+			if r.IntN(2) == 0 {
+				y = uint32(1 + r.IntN(universe))
+			}
+			if dm.deliverDamaged(y, r) {
+				res.Violate(d.name()+":damaged-copy-accepted", fmt.Sprintf("%s: a copy of frame %d with a flipped authentication bit was accepted", d.name(), y), map[string]any{"layer": d.name(), "case_id": d.name() + ":damaged"})
+				return false
+			}
+		}
+		acc, err := d.deliver(x)
+		v := ref.verdict(x)
+		switch {
+		case v < 0 && acc:
+			res.Violate(d.name()+":duplicate-accepted:with-damaged-copies", fmt.Sprintf("%s: with damaged copies delivered in between, number %d (step %d) was accepted although the reference must reject it", d.name(), x, i),
+				map[string]any{"layer": d.name(), "history": append([]uint32(nil), h[:i+1]...), "case_id": d.name() + ":damaged"})
+			return false
+		case v > 0 && !acc:
+			res.Violate(d.name()+":fresh-in-window-rejected:after-damaged-copy", fmt.Sprintf("%s: genuine number %d (not a duplicate, newest accepted %d) was rejected after damaged copies of other/the same frames had been refused: %v", d.name(), x, ref.h, err),
+				map[string]any{"layer": d.name(), "history": append([]uint32(nil), h[:i+1]...), "case_id": d.name() + ":damaged"})
+			return false
+		}
+		if acc {
+			ref.accept(x)
+		}
+	}
+	res.Case("damaged:"+d.name()+":"+hstr(h[:min(len(h), 30)]), true)
+	res.Count("histories_with_damaged_copies", 1)
+	return true
+}
+
+func flipAuthBit(data []byte, authLen int, r *rand.Rand) []byte {
+	out := append([]byte(nil), data...)
+	out[len(out)-1-r.IntN(authLen)] ^= 1 << uint(r.IntN(8))
+	return out
+}
+
+func (d *frameDeliverer) deliverDamaged(x uint32, r *rand.Rand) bool {
+	if d.frames[x] == nil {
+		return false
+	}
+	f, err := parse(d.p.b.BuilderV, flipAuthBit(d.frames[x], 16, r))
+	if err != nil {
+		return false
+	}
+	defer f.ReturnToPool()
+	return f.Unseal(d.p.ba) == nil
+}
+
+func (d *linkDeliverer) deliverDamaged(x uint32, r *rand.Rand) bool {
+	if d.frames[x] == nil {
+		return false
+	}
+	lf := peering.LinkFrame(flipAuthBit(d.frames[x], 16, r))
+	return lf.Unseal(d.recv) == nil
+}
+
 // enumerate calls fn for every sequence over alphabet of length 1..maxLen
 // whose first element index is congruent to shard (mod shards).
 func enumerate(alphabet []uint32, maxLen int, shard, shards int, fn func(h []uint32) bool) {
@@ -753,6 +825,9 @@ func run(c *core.Ctx) {
 				res.Sample(map[string]any{"layer": d.name(), "history_prefix": hstr(h[:min(40, len(h))]), "length": len(h)})
 			}
 			checkHistory(res, d, h, "", true)
+			if i%4 == 0 {
+				checkHistoryDamaged(res, d, randomHistory(r, n, 600), n, r)
+			}
 		}
 	})
 	res.Count("random_long_histories", res.Evaluations-before)
